@@ -260,3 +260,41 @@ def gen_manual_layout(sp, L, W):
     sp.prove(list(d.keys()) == ["game_a", "game_b", "game_c"], "file denotes games %s" % list(d.keys()))
     for variant in "abc":
         check_iso(sp, d["game_" + variant], ref_game(variant, L, W, moves, loose, rewards, pt, pr, pl), variant)
+
+
+# ------------------------------------------------------------------ C11 sentinel: generated games are solved or declared unsolvable
+def _sent_jobs(tier, seed):
+    shapes = [(1, 1), (1, 2), (2, 1)] + ([(1, 3), (3, 1)] if tier == "thorough" else [])
+    jobs = []
+    for (L, W) in shapes:
+        for first in range(8):
+            jobs.append(dict(L=L, W=W, first=first, _cost=8 ** (L * W - 1), _timeout_s=2400, _max_violations=64))
+    return jobs
+
+
+@harness("gen.solve_sentinel", props=["C11"], jobs=_sent_jobs, sentinel=True, covers=["solved", "nosol"],
+         stubs=["open -> in-memory file", "logging (tad) -> sweep counter (budget 20000 sweeps)"],
+         bounds="CONCRETE runs: every board with <= 2 tiles (thorough <= 3), all arrow/loose layouts, rewards 0/1/2, probabilities 0.1 / 0.05 / 0.1",
+         desc="SENTINEL (concrete runs, not a solver verdict): every generated game is solved or reported as having no solution "
+              "by the real run_games, within a sweep budget")
+def gen_solve_sentinel(sp, L, W, first):
+    from .pipe import tad_pipe, SweepBudget
+    gen, _, _ = mods()
+    t = tad_pipe()
+    cr = repo.load("conditionalrewards", overrides={"open": FakeFile}, imports={"tad": t, "reverse_dfs": repo.std().reverse_dfs},
+                   alias="conditionalrewards_sentinel")
+    moves, loose, _ = _board(sp, L, W, first, None)
+    rewards = [[(i + 2 * j + 1) % 3 for j in range(W)] for i in range(L)]
+    FakeFile.store, FakeFile.opened = {}, []
+    gen.write_robots("inputs/s.py", L, W, moves, rewards, loose, 0.1, 0.05, 0.1)
+    d = cr.read_dict_from_file("inputs/s.py")
+    t.logging.reset(20000)
+    try:
+        out = cr.run_games(d)
+    except SweepBudget:
+        sp.prove(False, "a generated game was neither solved nor declared unsolvable within 20000 sweeps (moves=%s loose=%s)" % (moves, loose))
+    sp.prove(list(out.keys()) == ["game_a", "game_a_no_prune", "game_b", "game_b_no_prune", "game_c", "game_c_no_prune"], "entries %s" % list(out))
+    for k, e in out.items():
+        ok = e["msg"] == "Game solved" or e["msg"] == "Game not solved" or ("no solution" in e["msg"])
+        sp.prove(ok, "%s: %s (moves=%s loose=%s)" % (k, e["msg"], moves, loose))
+        sp.cover("solved" if e["msg"] == "Game solved" else "nosol")
